@@ -202,11 +202,17 @@ theorem C05_adx_step {P n : Nat} {gT gP gM gA : List ℚ → ℚ} {cs : List (Ca
       let mv := gM (mdms ++ [ADX.mdm k prev])
       let plus := pv / tr
       let minus := mv / tr
-      let t := if plus + minus = 0 then 0 else |plus - minus| / (plus + minus)
+      let t := ADX.tOf plus minus
       ∃ v s', s.vals k none = .ok (v, s', false) ∧ v.map VExp.value = [gA (ts ++ [t]), plus, minus] ∧
         s'.prev_close = k.close ∧
         ADX.Inv P n gT gP gM gA (cs ++ [k]) trs' (pdms ++ [ADX.pdm k prev]) (mdms ++ [ADX.mdm k prev]) (ts ++ [t]) s') :=
   ADX.vals_spec k h
+
+/-- the input of ADX's final average is the textbook |+DI − −DI| / (+DI + −DI) (0 when both vanish) whenever the two
+    quotients are non-negative, as the exact ones are; the guard `s <= 0` and the clamp to 1 of the code only act on
+    rounding residue -/
+theorem C05_adx_t_textbook {plus minus : ℚ} (hp : 0 ≤ plus) (hm : 0 ≤ minus) :
+    ADX.tOf plus minus = if plus + minus = 0 then 0 else |plus - minus| / (plus + minus) := ADX.tOf_nonneg hp hm
 
 theorem C05_trend_strength_step {P : Nat} {srcs : List ℚ} {s : TSInd} (src : ℚ) (h : TSInd.Inv P srcs s) :
     let w := lastN s.period (srcs ++ [src])
@@ -350,3 +356,4 @@ end Yata.C05
 #print axioms Yata.C05.C05_every_kind_realises
 #print axioms Yata.C05.C05_macd_init_every_kind
 #print axioms Yata.C05.C05_macd_run
+#print axioms Yata.C05.C05_adx_t_textbook
